@@ -164,6 +164,8 @@ pub fn tset(spec: &UlaSpec, quick: bool) -> Vec<usize> {
 struct Worker {
     e48: Emu,
     e128: Emu,
+    /// 128K with the contended bank 1 paged at 0xC000
+    e128b1: Emu,
 }
 
 fn mk_worker() -> Worker {
@@ -171,9 +173,33 @@ fn mk_worker() -> Worker {
     o48.sound = false;
     let mut o128 = Opts::k128();
     o128.sound = false;
+    let e128b1 = fresh_128(1);
     Worker {
         e48: rig::emu_stepping(&o48),
         e128: rig::emu_stepping(&o128),
+        e128b1,
+    }
+}
+
+fn fresh_128(top_bank: u8) -> Emu {
+    let mut o128 = Opts::k128();
+    o128.sound = false;
+    let mut e = rig::emu_stepping(&o128);
+    if top_bank != 0 {
+        rig::cpu_out(&mut e, 0x8000, 0x7FFD, top_bank);
+    }
+    e
+}
+
+/// Some encodings under test write the 128K paging latch themselves (OUT (n),A / OUT (C),r / OUTI
+/// with a port that decodes to it): the machine is put back into the paging state the reference
+/// assumes before the next step.
+fn restore_paging(e: &mut Emu, m128: bool, top_bank: u8) {
+    if m128 {
+        let p = e.verif_paging();
+        if p.0 != top_bank || !p.1 {
+            *e = fresh_128(top_bank);
+        }
     }
 }
 
@@ -205,6 +231,7 @@ fn sweep(ctx: &Ctx, e: &mut Emu, m128: bool, top_bank: u8, kind: u8, op: u8, p: 
             ref_step(spec, cont, t as u64, &s.regs, &read)
         };
         let it = impl_step(e, m128, t, &s);
+        restore_paging(e, m128, top_bank);
         n += 1;
         if outcomes.len() < 512 {
             outcomes.insert(rt << 8 | (t as u64 % 8));
@@ -223,6 +250,90 @@ fn sweep(ctx: &Ctx, e: &mut Emu, m128: bool, top_bank: u8, kind: u8, op: u8, p: 
         }
     }
     n
+}
+
+/// A setup whose `role` address sits `delta` away from a 16K window boundary, everything else in
+/// uncontended RAM at 0x90xx+: an access made 1-2 bytes off its proper address changes window.
+pub fn build_boundary(kind: u8, op: u8, v: &Variant, role: u8, addr: u16) -> Option<Setup> {
+    let p = Placement { bits: 0, cont_base: 0x60, unc_base: 0x90 };
+    let mut s = build(kind, op, &p, v)?;
+    let (_, _, o1, o2) = encoding_bytes(kind, op)?;
+    match role {
+        0 => s.regs.pc = addr,
+        1 => {
+            if o2 == o1 {
+                return None;
+            }
+            s.code[o1] = addr as u8;
+            s.code[o2] = (addr >> 8) as u8;
+        }
+        2 => {
+            s.regs.hl = addr;
+            s.regs.hl_ = addr;
+            let d = s.code[2] as i8 as i16 as u16;
+            s.regs.ix = addr.wrapping_sub(d);
+            s.regs.iy = addr.wrapping_sub(d);
+        }
+        3 => {
+            if v.counter == 0 {
+                s.regs.bc = addr;
+            }
+            s.regs.de = addr;
+            s.regs.af = (addr & 0xFF00) | (s.regs.af & 0xFF);
+        }
+        4 => s.regs.sp = addr,
+        _ => return None,
+    }
+    Some(s)
+}
+
+#[allow(clippy::too_many_arguments)]
+fn sweep_boundary(ctx: &Ctx, e: &mut Emu, m128: bool, top_bank: u8, kind: u8, op: u8, v: &Variant, role: u8, addr: u16, ts: &[usize], outcomes: &mut BTreeSet<u64>) -> u64 {
+    let spec = spec(m128);
+    let cont = Contended::new(m128, top_bank);
+    let s = match build_boundary(kind, op, v, role, addr) {
+        Some(s) => s,
+        None => return 0,
+    };
+    let mut n = 0u64;
+    for &t in ts {
+        rig::poke(e, s.regs.pc, &s.code[..s.len]);
+        let (rt, kinds) = {
+            let er: &Emu = e;
+            let read = |a: u16| er.peek(a);
+            ref_step(spec, cont, t as u64, &s.regs, &read)
+        };
+        let it = impl_step(e, m128, t, &s);
+        restore_paging(e, m128, top_bank);
+        n += 1;
+        if outcomes.len() < 512 {
+            outcomes.insert(rt << 8 | (t as u64 % 8) | 0x8000_0000);
+        }
+        if it != rt {
+            let mach = if m128 { "128k" } else { "48k" };
+            ctx.violation(
+                &format!("C04:{}:boundary:{}", mach, kinds_key(&kinds)),
+                &format!(
+                    "{} machine, encoding {} {:02x} (bytes {}), start T={}, address role {} (0 code, 1 nn, 2 HL/IX+d/IY+d, 3 BC/DE/A, 4 SP) placed at {:04x} next to a 16K window boundary (bank {} at C000), everything else in uncontended RAM, F={:02x} counter-variant {} odd-port {}: takes {} T, contention model says {} T (contended cycles: {})",
+                    mach, kind_name(kind), op, crate::vcore::hex(&s.code[..s.len]), t, role, addr, top_bank, v.f, v.counter, v.odd_port, it, rt, kinds_key(&kinds)
+                ),
+                json!({"kind":"boundary","m128":m128,"bank":top_bank,"enc_kind":kind,"op":op,"t":t,"role":role,"addr":addr,"f":v.f,"counter":v.counter,"odd":v.odd_port}),
+            );
+            break;
+        }
+    }
+    n
+}
+
+/// T-states for the boundary layer: the start and the end of the contended part of one picture line
+/// (quick) / two complete lines (thorough); every contention phase occurs in each.
+fn tset_boundary(spec: &UlaSpec, quick: bool) -> Vec<usize> {
+    let l = (spec.t0 + 96 * spec.line) as usize;
+    if quick {
+        (l - 4..l + 28).chain(l + 112..l + 144).collect()
+    } else {
+        (l - 8..l + 2 * spec.line as usize + 8).collect()
+    }
 }
 
 /// Roles whose region matters for this encoding/variant (changing it moves an access between windows)
@@ -323,9 +434,16 @@ pub fn run(tier: Tier, seed: u64, replay: Option<String>) -> i32 {
         if m128 {
             rig::cpu_out(e, 0x8000, 0x7FFD, bank);
         }
+        let mut o = BTreeSet::new();
+        if c["kind"] == "boundary" {
+            let var = Variant { f: c["f"].as_u64().unwrap() as u8, counter: c["counter"].as_u64().unwrap() as u8, odd_port: c["odd"].as_bool().unwrap() };
+            sweep_boundary(&ctx, e, m128, bank, c["enc_kind"].as_u64().unwrap() as u8, c["op"].as_u64().unwrap() as u8, &var, c["role"].as_u64().unwrap() as u8, c["addr"].as_u64().unwrap() as u16, &[c["t"].as_u64().unwrap() as usize], &mut o);
+            let n = ctx.violation_classes();
+            println!("replay: {} violation class(es) reproduced", n);
+            return (n > 0) as i32;
+        }
         let p = Placement { bits: c["pbits"].as_u64().unwrap() as u8, cont_base: c["cont_base"].as_u64().unwrap() as u8, unc_base: c["unc_base"].as_u64().unwrap() as u8 };
         let var = Variant { f: c["f"].as_u64().unwrap() as u8, counter: c["counter"].as_u64().unwrap() as u8, odd_port: c["odd"].as_bool().unwrap() };
-        let mut o = BTreeSet::new();
         sweep(&ctx, e, m128, bank, c["enc_kind"].as_u64().unwrap() as u8, c["op"].as_u64().unwrap() as u8, &p, &var, &[c["t"].as_u64().unwrap() as usize], &mut o);
         let n = ctx.violation_classes();
         println!("replay: {} violation class(es) reproduced", n);
@@ -339,6 +457,8 @@ pub fn run(tier: Tier, seed: u64, replay: Option<String>) -> i32 {
     let ts48 = tset(&ULA48, quick);
     let ts128 = tset(&ULA128, quick);
     let vars = variants();
+    let tb48 = tset_boundary(&ULA48, quick);
+    let tb128 = tset_boundary(&ULA128, quick);
     // quick: every 4th encoding per run would hide things; instead quick uses windows of T but all encodings
     par_for_with(encs.len(), 1, mk_worker, |w, i| {
         let (kind, op) = encs[i];
@@ -367,6 +487,22 @@ pub fn run(tier: Tier, seed: u64, replay: Option<String>) -> i32 {
             }
             seen_sigs.push(sig);
             let roles = relevant_roles(kind, op, v, &w.e48);
+            // boundary layer: each relevant address role next to every 16K window boundary
+            for r in roles.iter().filter(|r| **r < 5) {
+                for b in [0x4000u16, 0x8000, 0xC000, 0x0000] {
+                    if *r == 0 && (b == 0x4000 || b == 0x0000) {
+                        continue; // code cannot be placed in ROM
+                    }
+                    for delta in [-3i16, -2, -1, 0, 1, 2] {
+                        let addr = b.wrapping_add(delta as u16);
+                        if b != 0xC000 && b != 0x0000 {
+                            evals += sweep_boundary(&ctx, &mut w.e48, false, 0, kind, op, v, *r, addr, &tb48, &mut outcomes);
+                        }
+                        // 128K with contended bank 1 paged at C000: 4000, 8000, C000 and the FFFF->0000 wrap
+                        evals += sweep_boundary(&ctx, &mut w.e128b1, true, 1, kind, op, v, *r, addr, &tb128, &mut outcomes);
+                    }
+                }
+            }
             let nplace = 1usize << roles.len();
             for pi in 0..nplace {
                 let mut bits = 0u8;
@@ -428,7 +564,7 @@ pub fn run(tier: Tier, seed: u64, replay: Option<String>) -> i32 {
     ctx.note("start_t_states_128k", json!(ts128.len()));
     ctx.note("t_coverage", json!(if quick { "complete windows: frame start, first picture line +-, line 96, lines 190-192 edge, frame end" } else { "every T-state of the frame" }));
     ctx.finish(
-        "for every encoding x every timing variant (flags 00/FF x counter variants x port parity; variants with identical reference cycle shape merged) x every contended/uncontended assignment of the address roles the encoding uses (code, nn operand, HL/IX/IY, BC/DE/A as pointer and port high byte, SP, I) x {48K,128K} x every start T of the T set: one single step on the real Emulator (frame clock placed through the hook) and on RefZ80+RefULA; elapsed T must be equal; plus 10 cycle-kind probes with the address at 0xC000 under all eight 128K banks. distinct = distinct (elapsed, phase) outcomes per encoding",
+        "for every encoding x every timing variant (flags 00/FF x counter variants x port parity; variants with identical reference cycle shape merged) x every contended/uncontended assignment of the address roles the encoding uses (code, nn operand, HL/IX/IY, BC/DE/A as pointer and port high byte, SP, I) x {48K,128K} x every start T of the T set: one single step on the real Emulator (frame clock placed through the hook) and on RefZ80+RefULA; elapsed T must be equal; boundary layer: each address role the encoding uses placed at -3..+2 around every 16K window boundary (4000, 8000, C000 and the FFFF/0000 wrap with contended bank 1 at C000; code straddling 8000/C000) so that an access made one or two bytes off its proper address changes window, over all contention phases at the start and the end of the contended part of a picture line; plus 10 cycle-kind probes with the address at 0xC000 under all eight 128K banks. distinct = distinct (elapsed, phase) outcomes per encoding",
         true,
         &["placing the frame clock through verif_set_frame_clocks assumes contention depends on the clock value only (C05 runs whole frames without placing the clock as the control)", "RefULA is the literal formula of the property text"],
     )
